@@ -630,8 +630,8 @@ pub fn spec() -> PropSpec {
             Family { name: "cid-rotation", f: fam_rotation, weight: 15 },
             Family { name: "replay-long-transfer", f: fam_dup_heavy, weight: 10 },
         ],
-        quick_worlds: 80_000,
-        thorough_worlds: 1_200_000,
+        quick_worlds: 160_000,
+        thorough_worlds: 2_400_000,
         panic_is_violation: false,
         rule: "each world = workload under network faults plus attacker actions (replay of any earlier genuine datagram incl. the connection-creating Initial, corruption, cross-connection CID splicing, 16-byte suffixes random and real, forged Version Negotiation / Retry); non-trivial = a fault or injection fired; distinct = distinct abstract-event signature",
         assumptions: vec!["attacker does not hold packet protection keys (forging with tapped keys belongs to C03/C06)", "reset tokens are recomputed by the harness from the endpoints' seeded reset keys and the CIDs seen in the plaintext ledger"],
